@@ -52,7 +52,11 @@ macro_rules! impl_neg {
             type Output = $T;
             #[inline]
             fn neg(self) -> $T {
-                $T(-self.0)
+                if cfg!(debug_assertions) {
+                    $T::new(-self.0).expect("arithmetic operation overflowed")
+                } else {
+                    $T(-self.0).wrap_overflow_once()
+                }
             }
         }
     };
